@@ -22,7 +22,10 @@ SHARDS_QUICK = 4
 
 @st.composite
 def case_(draw, tier):
-    q = draw(st.sampled_from([1, 1, 2, 2, 3, 3, 4] if tier == "thorough" else [1, 1, 1, 2, 2, 3, 4]))
+    # (taken from a wide-range integer: small sampled_from draws are strongly skewed towards their first elements
+    # in short runs - seen 75 of 112 cases with q=1)
+    table = [1, 1, 2, 2, 3, 3, 4] if tier == "thorough" else [1, 1, 1, 2, 2, 3, 4]
+    q = table[draw(st.integers(0, 2 ** 31 - 1)) % 7]
     N = draw(st.integers(1500, 6000))
     if draw(st.integers(0, 7)) == 7:
         N = draw(st.integers(60000, 150000))       # long record: segments of 1e4..1e5 samples at the low-frequency end
@@ -36,7 +39,9 @@ def case_(draw, tier):
                    "win": draw(st.sampled_from(["kaiser", "hann"])), "Jdes": draw(st.integers(10, 40)), "Kdes": draw(st.integers(5, 40)),
                    "Lmin": draw(st.sampled_from([8, 16, 64])), "psll": draw(st.sampled_from([200, 100]))},
             "analytic": q <= (4 if tier == "thorough" else 3),
-            "dtype0": draw(st.sampled_from(["float64", "float64", "int64", "float32", "list"])), "which0": draw(st.integers(0, 3))}
+            "dtype0": draw(st.sampled_from(["float64", "float64", "int64", "float32", "list"])), "which0": draw(st.integers(0, 3)),
+            # constant levels on the inputs (a reference channel need not be zero-mean): up to 30 times its rms
+            "pedestals": [draw(st.sampled_from([0.0, 0.0, 0.0, 2.0, -5.0, 30.0])) for _ in range(q)]}
 
 
 def mix_matrix(rng, q):
@@ -56,7 +61,7 @@ def oracle(case):
     rng = np.random.default_rng(case["seed"])
     src = rng.standard_normal((q, N))
     M = mix_matrix(rng, q) if q > 1 else np.ones((1, 1))
-    inputs = [np.ascontiguousarray(r) for r in (M @ src)]
+    inputs = [np.ascontiguousarray(r) + p for r, p in zip(M @ src, case.get("pedestals", [0.0] * q))]
     # one input (often the first) stored as raw integer counts / float32 / a python list: the values are made exactly
     # representable first, so every relation between the records is unchanged
     k0 = case.get("which0", 0) % q if case.get("dtype0", "float64") != "float64" else None
@@ -89,13 +94,15 @@ def oracle(case):
             j = first(bad)
             viol.append(V("residual_outside_0_to_output", solver=tag, bin=j, res=float(a[j]), out=float(asd_out[j]), K=int(K[j]), q=q))
         if static:
-            bad = strong & (a > 1e-5 * asd_out)
+            bad = strong & (a > 1e-5 * asd_out) & (a * a > cancel_floor * asd_out ** 2)
             if bad.any():
                 j = first(bad)
                 viol.append(V("static_combination_not_cancelled", solver=tag, bin=j, res=float(a[j]), out=float(asd_out[j]), q=q))
 
-    def same(a, b, tag, tolr=1e-5):
-        bad = strong & (np.abs(a - b) > tolr * asd_out)
+    def same(a, b, tag, tolr=1e-5, fac=1.0):
+        # the residual power is a difference S00 - s^H A^-1 s: its rounding error is eps * cond(A) * S00, which only
+        # matters when the inputs are nearly collinear at a bin (common pedestals leaking into the lowest bins)
+        bad = strong & (np.abs(a - b) > tolr * asd_out) & (np.abs(a * a - b * b) > fac * cancel_floor * asd_out ** 2)
         if bad.any():
             j = first(bad)
             viol.append(V("residual_differs", what=tag, bin=j, a=float(a[j]), b=float(b[j]), out=float(asd_out[j]), K=int(K[j]), q=q,
@@ -104,7 +111,6 @@ def oracle(case):
     if not np.array_equal(np.asarray(f), np.asarray(ref.f)):
         viol.append(V("frequency_grid_differs"))
         return Res(viol, False, [])
-    bounds(a_num, "numeric")
     # independent reference: least-squares residual S00 - s^H A^-1 s from pairwise spectra (pinned by C05/C09)
     nf = len(f)
     A = np.zeros((nf, q, q), dtype=complex)
@@ -118,6 +124,12 @@ def oracle(case):
             A[:, i, j] = np.conj(np.asarray(pij.Gxy))
             A[:, j, i] = np.asarray(pij.Gxy)
     a_ref = np.zeros(nf)
+    cancel_floor = np.zeros(nf)
+    for k in np.nonzero(strong)[0]:
+        with np.errstate(all="ignore"):
+            ck = float(np.linalg.cond(A[k]))
+        cancel_floor[k] = 256.0 * np.finfo(float).eps * (ck if np.isfinite(ck) else 1e300)
+    bounds(a_num, "numeric")
     for k in np.nonzero(strong)[0]:
         sol = np.linalg.solve(A[k], sv[k])
         a_ref[k] = np.sqrt(max(float(np.asarray(ref.Gxx)[k] - np.real(np.vdot(sv[k], sol))), 0.0))
@@ -134,7 +146,7 @@ def oracle(case):
         same(a_perm, a_num, "permutation")
         M2 = mix_matrix(rng, q)
         _, a_mix = systems.MISO_numeric_optimal_spectral_analysis([np.ascontiguousarray(r) for r in (M2 @ np.vstack(inputs64))], out, fs, **kw)
-        same(a_mix, a_num, "remix")
+        same(a_mix, a_num, "remix", fac=float(np.linalg.cond(M2)) ** 2)
     else:
         _, a_siso = systems.SISO_optimal_spectral_analysis(inputs[0], out, fs, **kw)
         pair = compute_spectrum(np.vstack([inputs64[0], out]), fs, **kw)
@@ -147,6 +159,8 @@ def oracle(case):
               "dtype0:" + case.get("dtype0", "float64")]
     if q == 1 and case["delays"][0] >= 1:
         labels.append("siso-delayed")
+    if any(abs(p) > 1.0 for p in case.get("pedestals", [])):
+        labels.append("input-pedestal,o=%d" % kw["order"])
     return Res(viol, nontrivial and bool(strong.any()), labels)
 
 
